@@ -65,7 +65,7 @@ func hangTimeout() time.Duration {
 			return time.Duration(n) * time.Second
 		}
 	}
-	return 300 * time.Second
+	return 120 * time.Second
 }
 
 // runWorker executes one unit in a sandboxed child and classifies its end.
@@ -250,7 +250,9 @@ func ParentMain(id, tier string, seed int64) int {
 					break
 				}
 				ur.deaths = append(ur.deaths, *d)
-				if d.Kind == "spawn-failed" || len(ur.deaths) >= 25 || d.Case == 0 {
+				// one hang is reported and the unit abandoned: every further hanging case would cost
+				// another watchdog period
+				if d.Kind == "spawn-failed" || d.Kind == "hang" || len(ur.deaths) >= 25 || d.Case == 0 {
 					ur.gaveUp = true
 					break
 				}
